@@ -109,4 +109,16 @@ theorem seq_unlock_takes_effect_on_the_exact_line (ls : List TrkSeq.Line) (p : T
     ∃ l ∈ TrkSeq.track ls p .unlock, l.pat = p ∧ l.lfs = true ∧ l.lockable = false :=
   TrkSeq.track_unlock_exact ls p h
 
+/-- tie to commands/command_track.go: while the old file is copied, a line whose pattern changed is replaced by the new line AT ITS PLACE (first entry), every other line is written back as it was; only what is left afterwards goes to the end -/
+theorem gen_changed_line_written_in_place :
+    Gen.trackRewriteInPlace =
+      [
+       -- newline | !trackNoModifyAttrsFlag && len(attribContents) > 0 && ok
+       [110, 101, 119, 108, 105, 110, 101, 32, 124, 32, 33, 116, 114, 97, 99, 107, 78, 111, 77, 111, 100, 105, 102, 121, 65, 116, 116, 114, 115, 70, 108, 97, 103, 32, 38, 38, 32, 108, 101, 110, 40, 97, 116, 116, 114, 105, 98, 67, 111, 110, 116, 101, 110, 116, 115, 41, 32, 62, 32, 48, 32, 38, 38, 32, 111, 107],
+       -- line + lineEnd | !trackNoModifyAttrsFlag && len(attribContents) > 0 && !(ok)
+       [108, 105, 110, 101, 32, 43, 32, 108, 105, 110, 101, 69, 110, 100, 32, 124, 32, 33, 116, 114, 97, 99, 107, 78, 111, 77, 111, 100, 105, 102, 121, 65, 116, 116, 114, 115, 70, 108, 97, 103, 32, 38, 38, 32, 108, 101, 110, 40, 97, 116, 116, 114, 105, 98, 67, 111, 110, 116, 101, 110, 116, 115, 41, 32, 62, 32, 48, 32, 38, 38, 32, 33, 40, 111, 107, 41],
+       -- newline | !trackNoModifyAttrsFlag
+       [110, 101, 119, 108, 105, 110, 101, 32, 124, 32, 33, 116, 114, 97, 99, 107, 78, 111, 77, 111, 100, 105, 102, 121, 65, 116, 116, 114, 115, 70, 108, 97, 103]
+      ] := by decide
+
 end C19
